@@ -9,7 +9,11 @@ use crate::interpreter::variant_casts::VariantCasts;
 pub fn run<S: InterpreterTrait>(interpreter: &mut S) -> Result<(), RuntimeError> {
     let s = interpreter.context()[0].to_str_unchecked();
     let bytes: Vec<u8> = to_ascii_bytes(s);
-    let f = bytes_to_f64(&bytes);
+    if bytes.len() < 8 {
+        // a double is eight bytes
+        return Err(RuntimeError::IllegalFunctionCall);
+    }
+    let f = bytes_to_f64(&bytes[0..8]);
     interpreter
         .context_mut()
         .set_built_in_function_result(BuiltInFunction::Cvd, f);
